@@ -4,8 +4,8 @@ from common import *
 import decl, gen, pktcases, pktprops
 
 PID = 'C14'
-TARGETS = ['Properties/C14.vo', 'Bridge/DataBridge.vo', 'Bridge/MoveBridge.vo', 'Bridge/IntBridge.vo', 'Bridge/CodegenBridge.vo', 'Bridge/PlumbingBridge.vo', 'Bridge/ErrorsBridge.vo']
-KERNELS = ['G8_data', 'G3_move', 'G4_seq', 'G6_int', 'G11_codegen', 'G17_builder', 'G9_errors']
+TARGETS = ['Properties/C14.vo', 'Bridge/DataBridge.vo', 'Bridge/MoveBridge.vo', 'Bridge/IntBridge.vo', 'Bridge/CodegenBridge.vo', 'Bridge/PlumbingBridge.vo', 'Bridge/ErrorsBridge.vo', 'Bridge/RefBridge.vo']
+KERNELS = ['G8_data', 'G3_move', 'G4_seq', 'G6_int', 'G11_codegen', 'G17_builder', 'G9_errors', 'G16_ref', 'G16b_optional']
 PROP_FILE = 'Properties/C14.v'
 
 
@@ -95,9 +95,49 @@ def run(tier, seed, rng):
                 for pre in (b'P', b'PQR'):
                     G.add_unpack(0, pre + raw, len(pre))
             bgroups.append(G)
-    records, disagreements = pktcases.run_groups(groups + zgroups + bgroups, 'c14')
+    # ---- fields that consume NO bytes at the very end of the input (a present optional string of size 0, a repeated field of count 0,
+    # a sized string of size 0, Em): what they parse to must not depend on whether any byte follows; directly and inside a reference
+    tgroups = []
+    cond = ('bin', 'Eq', ('bin', 'BAnd', ('field', 0), ('lit', 1)), ('lit', 1))
+    tails = [('opt', ('leaf', ('dsized', ('field', 1), 'field', b'')), (cond, 'expr'), None),
+             ('opt', ('leaf', ('dsized', ('field', 1), 'field', b'')), (cond, 'lambda'), None),
+             ('seq', ('leaf', ('int', 2, False, None, 0)), (('field', 1), 'field'), None, None, None, None),
+             ('seq', ('leaf', ('int', 1, False, None, 0)), (('field', 1), 'field'), None, (cond, 'expr'), None, None),
+             ('elem', ('leaf', ('dsized', ('field', 1), 'field', b''))),
+             ('opt', ('leaf', ('int', 1, False, None, 0)), (cond, 'expr'), None)]
+    for ti, tail in enumerate(tails):
+        for gen_u in (True, False):
+            table = {0: dict(end=None, align=None, sbl=None, gp=True, gu=gen_u, vec=True, ann=True,
+                             fields=[{'move': None, 'body': ('elem', ('leaf', ('int', 1, False, None, 0)))},
+                                     {'move': None, 'body': ('elem', ('leaf', ('int', 1, False, None, 0)))},
+                                     {'move': None, 'body': tail}]),
+                     1: dict(end=None, align=None, sbl=None, gp=True, gu=True, vec=True, ann=True,
+                             fields=[{'move': None, 'body': ('elem', ('leaf', ('int', 1, False, None, 0)))}, {'move': None, 'body': ('elem', ('refpkt', 0, {}))}])}
+            G = pktcases.Group(table, 300000 + len(tgroups))
+            for flags in (0, 1):
+                for size in (0, 1):
+                    body = bytes([flags, size]) + b'Q' * (size * (2 if tail[0] == 'seq' and tail[1][1][1] == 2 else 1) if (flags & 1 or tail[0] in ('elem',) or (tail[0] == 'seq' and tail[4] is None)) else 0)
+                    for c, pre in ((0, b''), (1, b'\x09')):
+                        raw = pre + body
+                        G.add_unpack(c, raw, 0)
+                        for suf in (b'Z', b'\x00\x01\x02'):
+                            G.add_unpack(c, raw + suf, 0)
+                        G.add_unpack(c, b'PP' + raw + b'S', 2)
+            tgroups.append(G)
+    records, disagreements = pktcases.run_groups(groups + zgroups + bgroups + tgroups, 'c14')
+    trecs = [r for r in records if r['group'] >= 300000 and r['kind'] == 'roundtrip']
+    tfail, tbase = [], None
+    for r in trecs:
+        if r['offset'] == 0 and (tbase is None or not (r['raw'].startswith(tbase['raw']) and r['group'] == tbase['group'] and r['c'] == tbase['c'])):
+            tbase = r
+            continue
+        if tbase is None or r['group'] != tbase['group'] or r['c'] != tbase['c'] or 'ok' not in tbase['outcome']:
+            continue
+        want = shift_outcome(tbase['outcome'], r['offset'])
+        if view(r['outcome']) != view(want):
+            tfail.append((tbase, r, want))
     zrecs = [r for r in records if 100000 <= r['group'] < 200000 and r['kind'] == 'roundtrip']
-    brecs = [r for r in records if r['group'] >= 200000 and r['kind'] == 'roundtrip']
+    brecs = [r for r in records if 200000 <= r['group'] < 300000 and r['kind'] == 'roundtrip']
     bfail, bbase = [], None
     for r in brecs:
         if r['offset'] == 0:
@@ -169,6 +209,11 @@ def run(tier, seed, rng):
                     failures.append(dict(kind='oracle', sig='context-suffix', what='bytes appended after the parsed region changed a successful parse',
                                          classes=cls, cls=decl.cname(r['c']), raw=b['raw'].hex(), raw_with_context=r['raw'].hex(),
                                          offset=r['offset'], observed=view(orr), required=view(want)))
+    dist['zero_byte_tail_pairs'] = len(trecs)
+    for b, r, want in tfail[:20]:
+        failures.append(dict(kind='oracle', sig='context-suffix-zero-tail', what='a field that consumes no bytes at the very end of the input parses differently when bytes follow (or precede) the packet',
+                             classes=pktprops.class_source(tgroups, r['group']), cls=decl.cname(r['c']), raw=b['raw'].hex(), raw_with_context=r['raw'].hex(),
+                             offset=r['offset'], observed=view(r['outcome']), required=view(want)))
     dist['first_byte_move_pairs'] = sum(1 for r in brecs if r['offset'] != 0)
     for b, r, want in bfail[:20]:
         failures.append(dict(kind='oracle', sig='context-prefix-move0', what='a packet with a move landing on its first byte parses differently at offset 0 and behind a prefix',
